@@ -210,6 +210,10 @@ def run(rep, tier):
         c['P'], c['tend'] = P, tend
         vs.append(c09.to_cfg(c, est_n=4, second_run=0.5, post_checks=('vf.props._hist:check_tiling',)))
     res = _e1.explore_variants(rep, make, vs, bound=bound, label='histories')
+    # convergence patterns: answer sequences "below / above the tolerance" per (step, check) with <= 2 (3) answers "below"
+    # for blocks of 3 and 4 steps: a step has to keep receiving until its predecessor has really finished (chain clause)
+    cv = [block.default_cfg(P=P, K=K, L=L, jac=jac, predict='pfasst_burnin' if L > 1 else None, nblocks=2, conv_cost=1, checks=('protocol',), post_checks=('vf.props._hist:check_tiling',)) for P, K, L in (((3, 2, 1), (3, 3, 1), (4, 2, 1), (3, 2, 2)) if tier == 'quick' else ((3, 2, 1), (3, 3, 1), (4, 2, 1), (4, 3, 1), (3, 2, 2), (3, 3, 2), (4, 2, 2))) for jac in ((True, False) if L == 1 else (True,))]
+    res += _e1.explore_variants(rep, make, cv, bound=2 if tier == 'quick' else 3, label='convergence patterns')
     rep.coverage['history_executions'] = sum(st.executions for _, st in res)
     rep.coverage['traces_validated_against_impl'] = rep.coverage.get('traces_validated_against_impl', 0) + len(cases)
     rep.coverage['transitions'] = rep.coverage.get('transitions', 0) + ntrans
